@@ -195,8 +195,13 @@ func main() {
 				ev.crossDone++
 				if h0 == h {
 					ev.crossAgreed++
-				} else if ev.crossFirstBad == "" {
-					ev.crossFirstBad = fmt.Sprintf("run %d: %016x vs %016x", idx, h0, h)
+				} else {
+					if ev.crossFirstBad == "" {
+						ev.crossFirstBad = fmt.Sprintf("run %d: %016x vs %016x", idx, h0, h)
+					}
+					if len(ev.crossBad) < 4 {
+						ev.crossBad = append(ev.crossBad, idx)
+					}
 				}
 			}
 		}
@@ -222,6 +227,29 @@ func main() {
 	if exit == 0 {
 		if ev.detDone != ev.detAgreed {
 			trouble("determinism self-check: %d of %d double-runs disagreed", ev.detDone-ev.detAgreed, ev.detDone)
+		}
+		if ev.crossDone != ev.crossAgreed && len(phases) == 2 {
+			// The same run index may behave differently in two worker
+			// processes for a reason that is not the harness: state the
+			// library keeps outside its engines (a process-wide cache) is in a
+			// different condition in each, because the two phases have not
+			// executed exactly the same runs before it.  Decide by executing
+			// each differing run ALONE in a fresh process of either mode: if
+			// those agree, the run is a function of its seed and the
+			// difference came from process history.
+			alone := true
+			for _, idx := range ev.crossBad {
+				h0, ok0 := singleRunHash(phases[0], scratch, idx)
+				h1, ok1 := singleRunHash(phases[1], scratch, idx)
+				if !ok0 || !ok1 || h0 != h1 {
+					alone = false
+				}
+			}
+			if alone && len(ev.crossBad) > 0 {
+				fmt.Printf("note: %d of %d runs hashed differently in the plain and the race phase, but identically when executed alone in fresh processes of both modes: the library keeps state outside its engines, runs depend on what their process executed before; not counted as harness trouble\n", ev.crossDone-ev.crossAgreed, ev.crossDone)
+				ev.probes["runs_depending_on_process_history"] = ev.crossDone - ev.crossAgreed
+				ev.crossDone, ev.crossAgreed = 0, 0
+			}
 		}
 		if ev.crossDone != ev.crossAgreed {
 			trouble("cross-mode determinism: %d of %d runs hashed differently in the plain and the race phase (%s)", ev.crossDone-ev.crossAgreed, ev.crossDone, ev.crossFirstBad)
@@ -351,6 +379,25 @@ func detCheck(ph phase, scratch string, hashes map[uint64]uint64, done, agreed i
 		b = b[17:]
 	}
 	return done, agreed
+}
+
+// singleRunHash executes run idx alone in a fresh worker process of phase ph.
+func singleRunHash(ph phase, scratch string, idx uint64) (uint64, bool) {
+	hf := filepath.Join(scratch, fmt.Sprintf("hashes-single-%s-%d.one", ph.Name, idx))
+	cmd := workerCmd(ph, scratch, "-from", strconv.FormatUint(idx, 10), "-worker", "0", "-workers", "1", "-maxruns", "1", "-hashes", hf, "-samples", "0", "-enumlimit", "20")
+	if ph.Race {
+		lp := filepath.Join(scratch, fmt.Sprintf("race-single-%d", idx))
+		cmd.Args = append(cmd.Args, "-racelog", lp)
+		cmd.Env = append(cmd.Env, "GORACE=halt_on_error=0 log_path="+lp)
+	}
+	if _, err := cmd.Output(); err != nil {
+		return 0, false
+	}
+	b, _ := os.ReadFile(hf)
+	if len(b) < 17 {
+		return 0, false
+	}
+	return binary.LittleEndian.Uint64(b[8:]), true
 }
 
 func loadKnown() []knownFinding {
@@ -586,6 +633,7 @@ type evidence struct {
 	phaseInfo                                  []map[string]any
 	detDone, detAgreed, crossDone, crossAgreed int
 	crossFirstBad                              string
+	crossBad                                   []uint64
 	violations, known                          int
 	wall                                       float64
 	workerWall                                 float64
